@@ -484,3 +484,47 @@ def replay(ctx, path):
         return 2
     print("replay: history passes on the current tree")
     return 0
+
+
+def selftest(ctx):
+    """Binding self-test: a behaviour the specification generated must pass unchanged and
+    must be rejected (drift) when one recorded field is corrupted."""
+    import copy
+    consts = dict(Node="{1,2}", BaseName='{"a"}', Kinds='{"index","virtual"}', Types='{"create","rename"}',
+                  ExtraName='{"b"}', MaxReq=2)
+    ctx.spec_copy(AREA)
+    r = ctx.tlc(AREA, "ChannelSvcGen", "self.cfg", files={"self.cfg": cfg("GSpec", consts, {}, ["Emit"], depth=2)},
+                tag="self", workers=2)
+    base = None
+    for h in hists_of(r):
+        if [s["t"] for s in h] == ["create", "rename"] and all(s["res"] == "ok" for s in h) \
+                and h[0]["ents"][0]["kind"] == "index" and h[0]["ents"][0]["lease"] == 2:
+            base = h
+            break
+    if base is None:
+        raise vlib.Inconclusive("selftest: no suitable behaviour generated")
+    variants = [("unchanged", base)]
+    v = copy.deepcopy(base)
+    v[1]["meta"][0]["name"] = "zz"
+    variants.append(("metadata name corrupted", v))
+    v = copy.deepcopy(base)
+    v[0]["ret"][0]["key"]["c"] += 1
+    variants.append(("returned key corrupted", v))
+    v = copy.deepcopy(base)
+    v[1]["res"] = "fail"
+    variants.append(("outcome flipped", v))
+    v = copy.deepcopy(base)
+    v[0]["eng"][1] = []
+    variants.append(("engine entry dropped", v))
+    hs = [{"id": i, "nodes": 2, "steps": h} for i, (_, h) in enumerate(variants)]
+    summ, rows = run_replay(ctx, hs, "self", workers=2)
+    got = {row["id"]: row["r"] for row in rows}
+    ok = True
+    for i, (name, _) in enumerate(variants):
+        res = got.get(i, "ok")
+        want = "ok" if i == 0 else "drift"
+        print("selftest %-28s -> %s (want %s)" % (name, res, want))
+        ok = ok and res == want
+    import shutil
+    shutil.rmtree(ctx.build, ignore_errors=True)
+    return 0 if ok else 1
